@@ -1833,3 +1833,102 @@ pub fn capture_return_line(x: usize) -> Option<(Pos, Vec<Mv>)> {
     }
     None
 }
+
+// ---------------------------------------------------------------------------------------------
+// PAWNWALL, CASTLEFILE
+
+/// shard = side * 5 + kind index of the first extra man
+pub const PAWNWALL_SHARDS: usize = 10;
+
+/// PAWNWALL: side S with all eight pawns at home and its king on e1 / e8, plus exactly two
+/// further men of S of every pair of kinds {N, B, R, Q, P} on every pair of free squares (two
+/// bishops on one colour, three "rooks", a ninth pawn ...), enemy king on two far squares, both
+/// sides to move: boards whose pawn structure looks untouched but whose pieces do not.
+pub fn pawnwall(shard: usize, f: Sink) {
+    let s = (shard / 5) as u8;
+    let kinds = [N, B, R, Q, P];
+    let k1 = kinds[shard % 5];
+    let hr = if s == 0 { 0 } else { 7 };
+    let pr = if s == 0 { 1 } else { 6 };
+    let mut base = Pos::empty();
+    for fl in 0..8 {
+        base.b[sq(fl, pr)] = mk(s, P);
+    }
+    base.b[sq(4, hr)] = mk(s, K);
+    for &ek in &[sq(3, if s == 0 { 4 } else { 3 }), sq(7, 7 - hr)] {
+        let mut b0 = base;
+        b0.b[ek] = mk(1 - s, K);
+        for x in 0..64 {
+            if b0.b[x] != EMPTY || (k1 == P && (rank_of(x) == 0 || rank_of(x) == 7)) {
+                continue;
+            }
+            for &k2 in &kinds {
+                for y in (x + 1)..64 {
+                    if b0.b[y] != EMPTY || (k2 == P && (rank_of(y) == 0 || rank_of(y) == 7)) {
+                        continue;
+                    }
+                    for stm in 0..2u8 {
+                        let mut p = b0;
+                        p.stm = stm;
+                        p.b[x] = mk(s, k1);
+                        p.b[y] = mk(s, k2);
+                        emit_if_valid(&p, f);
+                    }
+                }
+            }
+        }
+    }
+}
+
+/// shard = side * 5 + file index (c, d, e, f, g)
+pub const CASTLEFILE_SHARDS: usize = 10;
+
+/// CASTLEFILE: king and rook(s) at home with every consistent rights set; on one of the files
+/// c..g every assignment of {empty, own pawn, enemy pawn, enemy rook} to the seven squares above
+/// the home rank (4^7): the squares the king leaves, crosses and reaches attacked along a file
+/// that is open, half-open or closed by pawns of either colour in every order.
+pub fn castlefile(shard: usize, f: Sink) {
+    let own = (shard / 5) as u8;
+    let file = (shard % 5 + 2) as i32;
+    let opp = 1 - own;
+    let hr = if own == 0 { 0 } else { 7 };
+    let dir = if own == 0 { 1 } else { -1 };
+    let alph = [EMPTY, mk(own, P), mk(opp, P), mk(opp, R)];
+    for rooks in 1..4u8 {
+        let mut base = Pos::empty();
+        base.stm = own;
+        base.b[sq(4, hr)] = mk(own, K);
+        if rooks & 1 != 0 {
+            base.b[sq(0, hr)] = mk(own, R);
+        }
+        if rooks & 2 != 0 {
+            base.b[sq(7, hr)] = mk(own, R);
+        }
+        // enemy king in the far corner away from the file
+        base.b[sq(if file <= 4 { 7 } else { 0 }, 7 - hr)] = mk(opp, K);
+        for code in 0..4usize.pow(7) {
+            let mut p = base;
+            let mut x = code;
+            let mut ok = true;
+            for i in 1..8 {
+                let c = alph[x % 4];
+                x /= 4;
+                let s = sq(file, hr + dir * i);
+                if c != EMPTY && kind(c) == P && i == 7 {
+                    ok = false; // no pawn on the last rank
+                    break;
+                }
+                if c != EMPTY && p.b[s] != EMPTY {
+                    ok = false;
+                    break;
+                }
+                if c != EMPTY {
+                    p.b[s] = c;
+                }
+            }
+            if ok {
+                expand_variants(&p, f);
+            }
+        }
+    }
+}
